@@ -62,3 +62,10 @@ Proof. exact render_verbatim_refuted. Qed.
 Theorem c06_render_verbatim_partial : forall l,
   (forall x, l = [x] -> py_int x = None) -> normalize_error_field l = join ", " l.
 Proof. exact render_verbatim_partial. Qed.
+
+(* literals the model repeats from the source are the ones the translator extracts from the current source (gen/Tables.v) *)
+From VGen Require Import Tables.
+From VModel Require Import PolicyM.
+From VProofs Require Import TieProofs.
+Theorem c06_tie_policy_markers : [kex_strict_c; kex_strict_s] = src_policy_markers.
+Proof. exact tie_policy_markers. Qed.
